@@ -57,11 +57,38 @@ class _Stalled(BaseException):
     """Raised by the SIGALRM watchdog inside a loop iteration that does not return."""
 
 
-def _on_alarm(signum: int, frame: Any) -> None:
-    raise _Stalled()
-
-
 STALL_LIMIT_S = 6.0     # one loop iteration never legitimately takes this long in the rigs (no black-holed connects)
+STALL_BLOCKED_S = 5.0   # ... asleep inside a system call (a blocking handshake, a blocking connect)
+STALL_CPU_S = 6.0       # ... or on a processor (spinning)
+STALL_WALL_CAP_S = 180.0
+_watch: Dict[str, Any] = {'t0': 0.0, 's0': None, 'rearms': 0}
+
+
+def _sched() -> Optional[Tuple[float, float]]:
+    """(seconds on a processor, seconds runnable but waiting for one) of the calling thread, from the kernel's scheduler
+    statistics; None where they are not available."""
+    try:
+        with open('/proc/thread-self/schedstat') as f:
+            a, b = f.read().split()[:2]
+        return int(a) / 1e9, int(b) / 1e9
+    except Exception:
+        return None
+
+
+def _on_alarm(signum: int, frame: Any) -> None:
+    # The deadline is wall-clock; the verdict must not be.  An iteration that is neither asleep in a system call nor burning a
+    # processor is merely waiting its turn on a loaded machine: the deadline is extended.  (Time asleep = wall - on-processor
+    # - runnable-and-waiting; a blocked handshake sleeps, a runaway loop is on a processor, a starved process is neither.)
+    s0, s1 = _watch['s0'], _sched()
+    if s0 is not None and s1 is not None:
+        wall = time.monotonic() - _watch['t0']
+        on_cpu = s1[0] - s0[0]
+        asleep = wall - on_cpu - (s1[1] - s0[1])
+        if asleep < STALL_BLOCKED_S and on_cpu < STALL_CPU_S and wall < STALL_WALL_CAP_S:
+            _watch['rearms'] += 1
+            signal.setitimer(signal.ITIMER_REAL, STALL_LIMIT_S / 2)
+            return
+    raise _Stalled()
 
 _flags_cache: Dict[str, Any] = {}
 
@@ -148,6 +175,7 @@ class StepRig:
                 try:
                     if watchdog:
                         old = signal.signal(signal.SIGALRM, _on_alarm)
+                        _watch['t0'], _watch['s0'] = time.monotonic(), _sched()
                         signal.setitimer(signal.ITIMER_REAL, STALL_LIMIT_S)
                     try:
                         self.loop.run_until_complete(self.ex._run_once())
